@@ -421,8 +421,9 @@ class InitDomain(ExactCollections, Domain):
             return [("exc", Exc(ORD, "TypeError", node.lineno), state)]
         if name == "issubclass" and len(args) == 2:
             c, b = args
-            if isinstance(c, ClassRef) and isinstance(b, ClassRef):
-                return [("ok", Const(b.name in self.prog.exception_bases(c.name) or b.name == c.name), state)]
+            bs = list(b.items) if isinstance(b, TupleV) else [b]
+            if isinstance(c, ClassRef) and bs and all(isinstance(x, ClassRef) for x in bs):
+                return [("ok", Const(any(x.name in self.prog.exception_bases(c.name) or x.name == c.name for x in bs)), state)]
             if isinstance(c, (Const, Opaque)):
                 return [("exc", Exc(ORD, "TypeError", node.lineno), state)]
             return [("ok", TOP, state)]
@@ -531,7 +532,7 @@ def constructor_rows(prog, init, r5):
             st, got, w = judge(go(v), "raise", "ValueError")
             settle(r5, st, "%s = %s (an element that is not an Exception subclass) rejected with ValueError" % (par, desc), "RetryingClient.__init__:%s:non-exception-element" % par, "RetryingClient(%s=%s) %s; a class that does not derive from Exception must be rejected with ValueError wherever it stands in the collection" % (par, desc, got), init, w)
     # ---- overlap
-    for desc, rf, dn, clash in [("(OSError, KeyError) / (KeyError,)", Arg("tuple", (A, B_)), Arg("tuple", (B_,)), True), ("[KeyError] / {OSError, KeyError}", Arg("list", (B_,)), Arg("set", (A, B_)), True), ("(OSError,) / (KeyError,)", Arg("tuple", (A,)), Arg("tuple", (B_,)), False), ("(OSError, MemcacheError) / [KeyError]", Arg("tuple", (A, C_)), Arg("list", (B_,)), False)]:
+    for desc, rf, dn, clash in [("(OSError, KeyError) / (KeyError,)", Arg("tuple", (A, B_)), Arg("tuple", (B_,)), True), ("[KeyError] / {OSError, KeyError}", Arg("list", (B_,)), Arg("set", (A, B_)), True), ("(OSError,) / (KeyError,)", Arg("tuple", (A,)), Arg("tuple", (B_,)), False), ("(OSError, MemcacheError) / [KeyError]", Arg("tuple", (A, C_)), Arg("list", (B_,)), False), ("(KeyError,) / (LookupError,) [a subclass of a do-not-retry class]", Arg("tuple", (B_,)), Arg("tuple", (ClassRef("LookupError"),)), False), ("(LookupError,) / (KeyError,) [a base class of a do-not-retry class]", Arg("tuple", (ClassRef("LookupError"),)), Arg("tuple", (B_,)), False)]:
         rows += 1
         outs = run(Const(3), rf, dn)
         if clash:
@@ -539,7 +540,23 @@ def constructor_rows(prog, init, r5):
             settle(r5, st, "retry_for / do_not_retry_for = %s: overlap rejected" % desc, "RetryingClient.__init__:overlap-check", "RetryingClient(retry_for / do_not_retry_for = %s) %s; a class present in both lists must be rejected with ValueError" % (desc, got), init, w)
         else:
             st, got, w = judge(outs, "ret", lambda x: True)
-            settle(r5, st, "retry_for / do_not_retry_for = %s: disjoint lists accepted" % desc, "RetryingClient.__init__:disjoint-rejected", "RetryingClient(retry_for / do_not_retry_for = %s) %s; disjoint lists are a valid configuration" % (desc, got), init, w)
+            if st == "ok":
+                stored = {(s.get("self._retry_for", TOP), s.get("self._do_not_retry_for", TOP)) for s, x, t in outs.of("ret")}
+                universe = ["OSError", "ConnectionError", "TimeoutError", "KeyError", "IndexError", "LookupError", "ValueError", "MemcacheError", "MemcacheUnknownError", "Exception", "RuntimeError"]
+
+                def decides(rfl, dnl, e):
+                    bases = prog.exception_bases(e)
+                    return (not rfl or any(c.name in bases for c in rfl)) and not any(c.name in bases for c in dnl)
+
+                for srf, sdn in stored:
+                    if not (isinstance(srf, TupleV) and isinstance(sdn, TupleV) and all(isinstance(c, ClassRef) for c in srf.items + sdn.items)):
+                        st, got = "undecided", "stores %s / %s" % (srf, sdn)
+                        break
+                    diff = [e for e in universe if decides(srf.items, sdn.items, e) != decides(rf.items, dn.items, e)]
+                    if diff:
+                        st, got = "fail", "stores retry_for=%s, do_not_retry_for=%s, under which %s is %s although the configuration says the opposite" % ([c.name for c in srf.items], [c.name for c in sdn.items], diff[0], "retried" if decides(srf.items, sdn.items, diff[0]) else "not retried")
+                        break
+            settle(r5, st, "retry_for / do_not_retry_for = %s: accepted, both lists stored as given" % desc, "RetryingClient.__init__:filters-stored", "RetryingClient(retry_for / do_not_retry_for = %s) %s; lists without a common class are a valid configuration and what is stored must decide every exception class as the given lists do (an emptied retry_for means 'retry for everything')" % (desc, got), init, w)
     r5.count("constructor rows", rows)
     r5.floor("constructor rows", rows, 30)
 
